@@ -565,6 +565,12 @@ pub fn run(ctx: &Ctx) {
             .prop_map(|(d, k, msg_len, msg_seed, compressed, c1c3c2)| Asn1Case { d, k, msg_len, msg_seed, compressed, c1c3c2 })
     }, check_asn1);
 
+    ctx.cold("cold_start_public_key_codecs", "public-key encodings as the first library operations of a fresh process", || (0..2u64).map(|i| KeyCase { d: Hex(expand_bytes(i ^ 0xc19d, 32)) }).collect(), check_public);
+    ctx.cold("cold_start_private_key_codecs", "private-key encodings as the first library operations of a fresh process", || (0..2u64).map(|i| KeyCase { d: Hex(expand_bytes(i ^ 0xc19e, 32)) }).collect(), check_private);
+    ctx.cold("cold_start_asn1", "ASN.1 ciphertext round trip as the first library operations of a fresh process", || {
+        (0..2u64).map(|i| Asn1Case { d: Hex(expand_bytes(i ^ 0xc19f, 32)), k: Hex(expand_bytes(i ^ 0xc1a0, 32)), msg_len: 20 + i as usize, msg_seed: i, compressed: i == 1, c1c3c2: true }).collect()
+    }, check_asn1);
+
     ctx.listed("edge_point_public_keys", "boundary points of the curve (x next to 0, n, p, powers of two, Montgomery limb patterns, y with a leading zero byte) as public keys: every decoder, re-encoding, SPKI", || (0..edge_points().len()).collect::<Vec<usize>>(), check_edge_public);
 
     ctx.listed("asn1_edge_points", "SM2Cipher documents whose (x, y) is a boundary point, written by the reference DER writer, x 4 flag combinations", move || {
